@@ -20,10 +20,25 @@ def body(ctx):
     ctx.bound('lengths', 'announced size and every body frame length symbolic (64-bit / up to 2^32 per frame)')
     ctx.bound('interleaving', 'one frame for another channel (B) inserted at an arbitrary position of the content sequence')
     ctx.assume("the caller of a get takes its reply (synchronous); consumer receiver alive; consumer queues are unbounded crossbeam channels")
-    f = prog.method('ConnectionState', 'process')
     VAL = Validator(ctx, prog)
+    npaths = content_sequences(ctx, prog, ex, K, VAL, ('Delivery', 'Return', 'Get'))
+    ctx.extra['process_paths'] = npaths
+    inductive_frame_condition(ctx, prog, ex)
+    consumer_queue_kind(ctx, prog)
+    segmentation_steps(ctx, prog)
+    # the return listener a returned message goes to is not disturbed by the channel's other traffic (confirmations with a dropped
+    # confirm listener): the forwarding obligations of C13
+    import c13
+    c13.VAL = VAL
+    c13.confirm_sequences(ctx, ex, prog, ctx.q(2, 3), [])
+    VAL.run()
+
+
+def content_sequences(ctx, prog, ex, K, VAL, kinds):
+    """start method + header + K body frames (all sizes symbolic) with a frame of another channel interleaved, every prefix checked"""
+    f = prog.method('ConnectionState', 'process')
     npaths = 0
-    for kind in ('Delivery', 'Return', 'Get'):
+    for kind in kinds:
         a, b = z3.BitVec('chan_a', 16), z3.BitVec('chan_b', 16)
         st, w = build_steady(prog, [('A', a, {'consumers': 1}), ('B', b, {'consumers': 1})])
         meth = {'Delivery': 'Deliver', 'Return': 'Return', 'Get': 'GetOk'}[kind]
@@ -60,11 +75,7 @@ def body(ctx):
                         if not isinstance(rv, Panic) and err_name(prog, rv) == 'Ok':
                             nxt.append((s1, ev2))
                 front = nxt
-    ctx.extra['process_paths'] = npaths
-    inductive_frame_condition(ctx, prog, ex)
-    consumer_queue_kind(ctx, prog)
-    segmentation_steps(ctx, prog)
-    VAL.run()
+    return npaths
 
 
 def delivered(prog, w, kind):
